@@ -141,7 +141,8 @@ func BlockLen(j int) int {
 }
 
 // the key column is deliberately not the first one: code that takes "the first cells" for the key is wrong
-var Columns = []string{"a", "k", "b"}
+// (the first column name starts with a byte order mark, as a CSV exported by a spreadsheet does: it is part of the name)
+var Columns = []string{"\ufeffa", "k", "b"}
 
 // RowsOfBlock: abstract block j is a fixed key range; the keys of block j sort
 // before those of block j+1, so a table made of blocks j1 < j2 < ... has exactly
@@ -191,7 +192,7 @@ func ingestBlocks(db objects.Store, blocks []int) ([]byte, error) {
 	}
 	// composite key declared in another order than the columns (a, k, b): code that takes key cells in column
 	// order is wrong; rows still sort by k first, so the block layout is the one described above
-	return ingest.IngestTable(db, s, io.NopCloser(bytes.NewReader(buf.Bytes())), []string{"k", "a"}, logr.Discard())
+	return ingest.IngestTable(db, s, io.NopCloser(bytes.NewReader(buf.Bytes())), []string{"k", "\ufeffa"}, logr.Discard())
 }
 
 // BuildUniverse ingests every table (abstract id -> ascending abstract blocks).
